@@ -1,5 +1,6 @@
 import DinoProofs.Lemmas.BalanceSW
 import DinoProofs.Lemmas.BalanceCol
+import DinoProofs.Lemmas.BalanceZonal
 import Mathlib.Algebra.Algebra.Prod
 import Mathlib.Tactic.NormNum
 
@@ -269,6 +270,83 @@ theorem surface_pressure_tendency [BEq K] (L : LinLaws eq.ops) (s : State M) (n 
     _ = s.divergence := List.map_id _
 
 end T52
+
+/-! ## zonal flows (solid-body rotation, zonal jets): steady iff in gradient-wind balance -/
+section Zonal
+variable {K M N : Type} [Field K] [AddCommGroup M] [Module K M] [CommRing N] [Algebra K N]
+variable (eq : PrimitiveEquations K M N)
+
+/-- the implicit half of the divergence tendency: `−∇²(Φ′ + R T_ref ln pₛ)` of every level -/
+def zonalDivImplicit (T' : List M) (lnp : M) : List M :=
+  (Col.add (eq.geopotentialDiff T') (eq.referenceTemperature.map fun t => (eq.phys.R * t) • lnp)).map
+    fun x => -(eq.ops.laplacian x)
+
+/-- **Zonal flows (dry classes).**  For every non-divergent state whose wind is zonal and whose surface
+ pressure, momentum flux and advective fluxes are zonal (`ZonalFlow`, `d_dlon = 0`), any level set, any
+ `T_ref`, any per-level temperatures and tracers: the total tendency of vorticity, temperature, surface
+ pressure and of every tracer is zero, and the divergence tendency of level `k` is
+ `clip(−S(B_k)/a − ∇²(½u_k²) − g∇²h) − ∇²(Φ′_k + R T_ref,k ln pₛ)`,
+ `B_k = to_modal(((ζ_k + f) u_k + R T′_k ∂_θ ln pₛ) sec²θ)` — the residual of the meridional
+ (gradient-wind) balance.  Solid-body rotation `u = U cos θ` with `ln pₛ = π₀ − c sin²θ/2` is the
+ special case in which the residual vanishes (analytically: `U² + 2ΩaU = c R T`; on real grids:
+ `harness/props/C05.py`, probe `solid-body`). -/
+theorem zonal_flow_total [BEq K] (L : LinLaws eq.ops) (n : ℕ) (hn : 0 < n)
+    (hb : eq.vert.boundaries.length = n + 1) (hlc : eq.vert.logCenters.length = n)
+    (hT : eq.referenceTemperature.length = n) (ζ T' : List M) (hζ : ζ.length = n) (hT' : T'.length = n)
+    (lnp : M) (tr : List (String × List M)) (htr : ∀ kv ∈ tr, kv.2.length = n)
+    (Z : ZonalFlow eq.ops ζ lnp)
+    (hzB : ∀ b ∈ zonalB eq ζ (Col.smul eq.phys.R (T'.map eq.ops.toNodal))
+      (eq.ops.toNodal (eq.ops.cosLatGrad false lnp).2), eq.ops.dDlon b = 0)
+    (hzT : ZonalFlux eq ζ (T'.map eq.ops.toNodal))
+    (hztr : ∀ kv ∈ tr, ZonalFlux eq ζ (kv.2.map eq.ops.toNodal)) :
+    State.add (eq.explicitTerms (zonalState ζ T' lnp tr)) (eq.implicitTerms (zonalState ζ T' lnp tr)) =
+      { zeroTendency n tr with
+        divergence := Col.add
+          (List.zipWith (zonalDivExplicit eq)
+            (zonalB eq ζ (Col.smul eq.phys.R (T'.map eq.ops.toNodal))
+              (eq.ops.toNodal (eq.ops.cosLatGrad false lnp).2)) (ζ.map (zonalU eq.ops)))
+          (zonalDivImplicit eq T' lnp) } := by
+  rw [explicitTerms_zonal eq L n hn hb hlc hT ζ T' hζ hT' lnp tr htr Z hzB hzT hztr]
+  have hds : eq.vert.ds.length = n := by simp [Vert.ds, Sigma.thickness, hb]
+  have hz : mapTracers Col.zerosLike tr = mapTracers (fun _ => List.replicate n (0 : M)) tr := by
+    apply mapTracers_congr
+    intro kv hkv
+    rw [← htr kv hkv]; simp [Col.zerosLike]
+  have himp : eq.implicitTerms (zonalState ζ T' lnp tr) =
+      { vorticity := List.replicate n 0
+        divergence := zonalDivImplicit eq T' lnp
+        temperatureVariation := List.replicate n 0
+        logSurfacePressure := 0
+        tracers := mapTracers (fun _ => List.replicate n 0) tr } := by
+    unfold PrimitiveEquations.implicitTerms zonalState zonalDivImplicit
+    simp only [hζ, PrimitiveEquations.temperatureImplicit, PrimitiveEquations.temperatureImplicitWeights,
+      matvec_zeros, sigmaIntegral_zeros eq.vert.ds n hds, neg_zero, zerosLike_eq, hz]
+    simp [Implicit.negMat, Implicit.hMatrix, hds]
+  rw [himp]
+  simp only [State.add, Col.add, List.zipWith_replicate, Nat.min_self, add_zero, zipTracers_const,
+    zeroTendency]
+
+/-- **Zonal flows in gradient-wind balance are steady** (dry classes). -/
+theorem zonal_flow_steady [BEq K] (L : LinLaws eq.ops) (n : ℕ) (hn : 0 < n)
+    (hb : eq.vert.boundaries.length = n + 1) (hlc : eq.vert.logCenters.length = n)
+    (hT : eq.referenceTemperature.length = n) (ζ T' : List M) (hζ : ζ.length = n) (hT' : T'.length = n)
+    (lnp : M) (tr : List (String × List M)) (htr : ∀ kv ∈ tr, kv.2.length = n)
+    (Z : ZonalFlow eq.ops ζ lnp)
+    (hzB : ∀ b ∈ zonalB eq ζ (Col.smul eq.phys.R (T'.map eq.ops.toNodal))
+      (eq.ops.toNodal (eq.ops.cosLatGrad false lnp).2), eq.ops.dDlon b = 0)
+    (hzT : ZonalFlux eq ζ (T'.map eq.ops.toNodal))
+    (hztr : ∀ kv ∈ tr, ZonalFlux eq ζ (kv.2.map eq.ops.toNodal))
+    (hbal : Col.add
+        (List.zipWith (zonalDivExplicit eq)
+          (zonalB eq ζ (Col.smul eq.phys.R (T'.map eq.ops.toNodal))
+            (eq.ops.toNodal (eq.ops.cosLatGrad false lnp).2)) (ζ.map (zonalU eq.ops)))
+        (zonalDivImplicit eq T' lnp) = List.replicate n 0) :
+    State.add (eq.explicitTerms (zonalState ζ T' lnp tr)) (eq.implicitTerms (zonalState ζ T' lnp tr))
+      = zeroTendency n tr := by
+  rw [zonal_flow_total eq L n hn hb hlc hT ζ T' hζ hT' lnp tr htr Z hzB hzT hztr, hbal]
+  rfl
+
+end Zonal
 
 /-! ### non-vacuity: a two-mode (constant + `sin θ`), two-node toy grid over `ℚ` -/
 section example51
@@ -760,5 +838,45 @@ theorem one_layer_not_steady_omega :
 
 
 end ShallowWaterPart
+
+/-! ### non-vacuity of the zonal-flow theorems: solid-body rotation on the three-mode toy sphere
+
+Two uneven layers rotating at different rates, `u₀ = cos θ`, `u₁ = 2 cos θ` (vorticities `2μ`, `4μ`),
+horizontally uniform temperatures `T′ = (−16/25, 48/25)` around `T_ref = 3`, `ln pₛ = 1/5 − μ²/2`
+(`c = 1`, `R = 1`, `2Ωa = 1`).  On the sphere the balance is `U² + U = c R (T_ref + T′)`; the toy
+sphere truncates `cos θ ∂_θ` at `μ²`, which weights `T′` by `25/16`: `1 + 1 = 3 − 1`, `4 + 2 = 3 + 3`. -/
+section ZonalExample
+open Dino.Dynamics
+
+def toyPE : PrimitiveEquations ℚ Q3 Q3 :=
+  { ops := toySWOps 1
+    vert := { boundaries := [0, 1 / 3, 1], logCenters := [-2, -1 / 3] }
+    phys := { angularVelocity := 1 / 2, g := 10, R := 1, Rvapor := 2, CpVapor := 18, kappa := 2 / 7 }
+    referenceTemperature := [3, 3]
+    orography := (0, 0, 0) }
+
+def toyZeta : List Q3 := [(0, 2, 0), (0, 4, 0)]
+def toyTv : List Q3 := [(-16 / 25, 0, 0), (48 / 25, 0, 0)]
+def toyLnp : Q3 := (1 / 5, 0, -1 / 2)
+
+/-- the wind of the example is solid-body rotation: `cos θ·u = U cos²θ` on the three nodes -/
+example : toyZeta.map (zonalU toyPE.ops) = [(16 / 25, 1, 16 / 25), (32 / 25, 2, 32 / 25)] := by
+  decide +kernel
+
+/-- the two halves of the divergence tendency are not zero; they cancel -/
+example : zonalDivImplicit toyPE toyTv toyLnp = [((3, 0, -9) : Q3), ((3, 0, -9) : Q3)] := by
+  decide +kernel
+
+example :
+    State.add (toyPE.explicitTerms (zonalState toyZeta toyTv toyLnp [("tracer", [(1, 0, 0), (2, 0, 0)])]))
+        (toyPE.implicitTerms (zonalState toyZeta toyTv toyLnp [("tracer", [(1, 0, 0), (2, 0, 0)])]))
+      = zeroTendency 2 [("tracer", [(1, 0, 0), (2, 0, 0)])] := by
+  refine zonal_flow_steady toyPE (toySW_lin 1) 2 (by decide) rfl rfl rfl toyZeta toyTv rfl rfl toyLnp _
+    (by simp) ⟨?_, ?_⟩ (fun b _ => rfl) (fun a _ => rfl) (fun kv _ a _ => rfl) ?_
+  · decide +kernel
+  · decide +kernel
+  · decide +kernel
+
+end ZonalExample
 
 end Dino.C05
